@@ -47,7 +47,7 @@ var configs = []string{"rib-hook-then-nis", "rib-nis-then-hook", "server-opts", 
 
 func setup() {
 	c := ev.C()
-	c.Rule = "C01-style histories (rapid, model-aimed, with held-operation resolution and single-NI/all-NI flushes) x 4 configuration orders (hook registered before / after the network instances exist, via rib.SetPostChangeHook+AddNetworkInstance, server.WithPostChangeRIBHook+WithVRFs, Server.AddNetworkInstance at runtime). Oracle: a consumer folding the post-change notifications (ADD -> put, DELETE with non-nil entry -> remove) must equal RIBContents in every NI after every step; every resolved-entry notification (count == model-predicted, awaited by goroutine state) must contain the key for ADD, lack it for DELETE and be unchanged at the end of the history. Plus (rib API) Flushes stopped at a drawn removal notification where a second actor's operation (mostly re-programming a key that is being flushed) is started and the Flush resumes once it returned or is parked on a lock: when both have finished the fold of all notifications must equal the RIB contents. Non-trivial = history changes an NI that was created after hook registration, or contains a flush that removed entries, or a held-operation resolution; distinct by FNV-64 of the case JSON."
+	c.Rule = "C01-style histories (rapid, model-aimed, with held-operation resolution and single-NI/all-NI flushes) x 4 configuration orders (hook registered before / after the network instances exist, via rib.SetPostChangeHook+AddNetworkInstance, server.WithPostChangeRIBHook+WithVRFs, Server.AddNetworkInstance at runtime). Oracle: a consumer folding the post-change notifications (ADD -> put, DELETE with non-nil entry -> remove) must equal RIBContents in every NI after every step; every resolved-entry notification (count == model-predicted, awaited by goroutine state) must contain the key for ADD, lack it for DELETE and be unchanged at the end of the history. Plus (rib API) Flushes stopped at a drawn removal notification where a second actor's operation (mostly re-programming a key that is being flushed) is started and the Flush resumes once it returned or is parked on a lock: when both have finished the fold of all notifications must equal the RIB contents. Non-trivial = history changes an NI that was created after hook registration, or contains a flush that removed entries, or a held-operation resolution; distinct by FNV-64 of the case JSON. Later additions: harness-owned wall clock stepped/frozen before drawn steps; injected schedules with the resolved-entry hook registered and AddNetworkInstance as second actor."
 	c.Assumptions = []string{"payloads are schema-valid", "the consumer does not call back into the RIB from the hook"}
 }
 
